@@ -113,7 +113,34 @@ CONV = [
 # the per-task record both races are read from (a record that has a task name is never found through its operation name): the C08 contract, claimed here too
 from contracts.C08 import METRICS as _METRICS  # noqa: E402
 
-CONTRACTS = [DIFF, LINE, dict(_METRICS, prop="C20")] + CONV
+# ------------------------------------------------------------------------------------------------ write_single_report: the file gets the PLAIN rendering
+WRITE_REPORT = dict(
+    target="esrally/reporter.py::write_single_report",
+    prop="C20",
+    params={"report_file": "str", "report_format": "str", "cwd": "any", "numbers_align": "any", "headers": "any", "data_plain": "any", "data_rich": "any"},
+    externals={
+        "partial": dict(returns="any"),
+        "formatter": dict(event="format", returns="any"),
+        "print_internal": dict(event="print"),
+        "rio.normalize_path": dict(returns="str", pure=True, uf="normpath"),
+        "rio.dirname": dict(returns="str", pure=True, uf="dirname"),
+        "rio.ensure_dir": dict(returns="none"),
+        "open": {"with": "transparent", "returns": "any", "event": "open"},
+        "f.writelines": dict(event="write"),
+    },
+    ensures=[
+        # the console shows the table rendered from the rich (possibly coloured) rows ...
+        "nev() >= 2 and evk(0) == 'format' and eva(0, 1, 'any') == headers and eva(0, 2, 'any') == data_rich and evk(1) == 'print' and eva(1, 1, 'any') == eva(0, 0, 'any')",
+        # ... the report file gets the table rendered from the PLAIN rows (same headers, same formatter): never the console rendering
+        "implies(len(report_file) > 0, nev() == 5 and evk(2) == 'open' and evk(3) == 'format' and eva(3, 1, 'any') == headers and eva(3, 2, 'any') == data_plain and "
+        "evk(4) == 'write' and eva(4, 1, 'any') == eva(3, 0, 'any'))",
+        "implies(len(report_file) == 0, nev() == 2)",
+    ],
+    raises={"SystemSetupError": dict(ensures=["report_format != 'markdown' and report_format != 'csv' and nev() == 0"])},
+    cover=["return", "raise:SystemSetupError"],
+)
+
+CONTRACTS = [DIFF, LINE, WRITE_REPORT, dict(_METRICS, prop="C20")] + CONV
 ASSUMPTIONS = [
     "exact-real arithmetic (floats as reals); the numeric formatting f'{x:.Nf}' is an uninterpreted function of (x, N, suffix)",
     "A-COLOUR: console.format.green/red/neutral are uninterpreted functions (distinctness of the colour codes is not needed by any obligation)",
